@@ -101,7 +101,9 @@ Items == <<
   \* 48: h3|re: ['a.*b', 'c?d']
   [field |-> <<104, 51>>, chain |-> <<<<114, 101>>>>, vals |-> <<SS(<<97, 46, 42, 98>>), SS(<<99, 63, 100>>)>>, single |-> FALSE],
   \* 49: h4|: []
-  [field |-> <<104, 52>>, chain |-> <<>>, vals |-> <<>>, single |-> FALSE]
+  [field |-> <<104, 52>>, chain |-> <<>>, vals |-> <<>>, single |-> FALSE],
+  \* 50: h5|expand: 'x\\%a\\%'
+  [field |-> <<104, 53>>, chain |-> <<<<101, 120, 112, 97, 110, 100>>>>, vals |-> <<SS(<<120, 92, 37, 97, 92, 37>>)>>, single |-> TRUE]
 >>
 KwLists == <<
   <<SS(<<102, 111, 111>>), SS(<<98, 97, 42, 114>>)>>,
